@@ -1,6 +1,7 @@
 package c19
 
 import (
+	"fmt"
 	"math"
 	"time"
 
@@ -53,13 +54,13 @@ func fieldClasses() []fieldClass {
 			for i := 0; i < 40; i++ {
 				switch i % 4 {
 				case 0:
-					f["f"+string(rune('a'+i))] = int64(i)
+					f[fmt.Sprintf("f%02d", i)] = int64(i)
 				case 1:
-					f["f"+string(rune('a'+i))] = float64(i) / 8
+					f[fmt.Sprintf("f%02d", i)] = float64(i) / 8
 				case 2:
-					f["f"+string(rune('a'+i))] = i%8 == 2
+					f[fmt.Sprintf("f%02d", i)] = i%8 == 2
 				default:
-					f["f"+string(rune('a'+i))] = trickyStrings[i%len(trickyStrings)]
+					f[fmt.Sprintf("f%02d", i)] = trickyStrings[i%len(trickyStrings)]
 				}
 			}
 			return f
@@ -148,7 +149,7 @@ func batchPayloads() []edge.BufferedBatchMessage {
 		mkBatch("m", gt, false, tTyp, 1, bp(f1, pt, tTyp)),
 		mkBatch("m", gt, true, tTyp, 2, bp(f1, pt, tNeg), bp(f2, gt, tTyp)),
 		mkBatch("m", models.Tags{"ho st": "a b,c=d", "e": ""}, true, tMax, 3, bp(f1, models.Tags{"ho st": "a b,c=d", "e": "", "z": "1"}, tZero), bp(f2, nil, tTyp), bp(f3, models.Tags{}, tMax)),
-		mkBatch("m", models.Tags{}, false, tZero, 7, bp(f2, pt, tTyp)), // size hint larger than the batch
+		mkBatch("m", models.Tags{}, false, tZero, 7, bp(f2, pt, tTyp)),       // size hint larger than the batch
 		mkBatch("m", gt, false, tNeg, 0, bp(f2, pt, tTyp), bp(f3, pt, tTyp)), // size hint smaller than the batch
 		mkBatch("", nil, true, tMin, 1, bp(f3, nil, tMin)),
 		mkBatch("m", nil, false, tZone, 1, bp(f3, nil, tZone)),
